@@ -35,6 +35,7 @@ Definition obs_of (a : answer) : option obs :=
   | AOk => Some OOk
   | AErr e => Some (OErr (project e))
   | AItem e => Some (OItem (project e))
+  | APanic => Some OPanic
   | AFuel => None          (* ill-nested case: never legal, shows up as a mismatch *)
   end.
 
